@@ -215,6 +215,25 @@ pub fn t_ps(data: &[u8], ctx: &mut Ctx) -> CheckResult {
         }
     }
 
+    // ---- a public key whose G1 and G2 vectors disagree in length (public fields; the serialization has
+    //      independent length prefixes): a message longer than the G2 vector it is paired with was never signed
+    {
+        let mut pk_u = pk.clone();
+        pk_u.y_tildas.truncate(l);
+        pk_u.ys.push(pk.g);
+        let mut ext = ms.clone();
+        ext.push(delta);
+        if pk_u.verify(&sig_known, &msg) {
+            ctx.class("uneven-key:signed-prefix-verifies");
+        }
+        vensure!(
+            !pk_u.verify(&sig_known, &ps_sig::KnownMessage::<Bls>(ext)),
+            "ps-uneven-key",
+            "signature on {} elements verifies on {} elements under a key with {} G1 and {} G2 elements",
+            l, l + 1, pk_u.ys.len(), pk_u.y_tildas.len()
+        );
+    }
+
     // ---- degenerate signature
     let zero = ps_sig::Signature::<Bls>(CG1::zero_point(), CG1::zero_point());
     vensure!(!pk.verify(&zero, &msg) && !pk.verify(&zero, &msg2), "ps-zero-signature", "the all-identity signature verifies");
